@@ -152,8 +152,14 @@ def box_around_point(p, dist):
     # of the box (not its diagonal), otherwise points within dist fall outside the box.
     d = dist / earth_radius
     lat_t, lat_b = latr + d, latr - d
-    dlon = asin(sin(d) / cos(latr))
-    lon_l, lon_r = lonr - dlon, lonr + dlon
+    if lat_t >= math.pi / 2 or lat_b <= -math.pi / 2:
+        # A pole lies within dist, or dist is infinite (the default of the matchers
+        # when no maximal distance is given): all longitudes are within reach.
+        lat_t, lat_b = min(lat_t, math.pi / 2), max(lat_b, -math.pi / 2)
+        lon_l, lon_r = -math.pi, math.pi
+    else:
+        dlon = asin(sin(d) / cos(latr))
+        lon_l, lon_r = lonr - dlon, lonr + dlon
     lat_t, lon_r = degrees(lat_t), degrees(lon_r)
     lat_b, lon_l = degrees(lat_b), degrees(lon_l)
     return lat_b, lon_l, lat_t, lon_r
